@@ -91,6 +91,68 @@ def run(ck):
     for d in places:
         os.mkdir(d)
     try:
+        # Directed family (seeded C42-9: COLLATE NOCASE on local_files.path): two distinct paths that are equal ignoring
+        # ASCII letter case (in the file name or in an ancestor directory) and look alike to stat() (same size, mtime,
+        # ctime). "path ... match the record of its most recent upload" means the path itself: a record written for
+        # Report.txt says nothing about report.txt. Judged in the reuse direction only.
+        trng = ck.rng("c42-case-twins")
+        for h in range(12 if ck.tier == "quick" else 60):
+            dbfile = os.path.join(tmp, "backupdb-twins-%d.sqlite" % h)
+            bdb = backupdb.get_backupdb(dbfile)
+            where = trng.choice(["file-name", "file-name", "ancestor-directory", "extension"])
+            if where == "file-name":
+                a, b = BASE + u"/Report.txt", BASE + u"/report.txt"
+            elif where == "extension":
+                a, b = BASE + u"/photo.JPG", BASE + u"/photo.jpg"
+            else:
+                a, b = BASE + u"/Docs/notes.txt", BASE + u"/docs/notes.txt"
+            if trng.random() < .5:
+                a, b = b, a
+            st = (trng.choice([0, 4, 1000, 2 ** 31]), 1_500_000_000 + trng.randrange(10 ** 6), 1_500_000_000 + trng.randrange(10 ** 6))
+            shim.table.clear()
+            shim.table[a] = shim.table[b] = st
+            twin_records = {}
+            tsteps = []
+
+            def twin_check(p):
+                got = bdb.check_file(p).was_uploaded()
+                ck.mon("file-reuse-oracle")
+                ck.hit("case-twin-paths-checked")
+                tsteps.append(("check", p, got))
+                rec = twin_records.get(p)
+                if got is not False and (rec is None or tob(got) != tob(rec)):
+                    other = [q for q in (a, b) if q != p][0]
+                    ck.violation("reuses-cap-recorded-for-path-differing-only-in-letter-case",
+                                 "check_file(%r) offered %s although the most recent upload of that path is %s (case differs in the %s)"
+                                 % (p, "the cap recorded for %r" % other if tob(got) == tob(twin_records.get(other)) else "a foreign cap",
+                                    "another cap" if rec is not None else "none at all", where),
+                                 {"path": p, "twin": other, "stat_of_both": st, "returned": got, "own_record": rec,
+                                  "twin_record": twin_records.get(other), "steps": tsteps[-8:]})
+                return got
+
+            def twin_upload(p):
+                r = bdb.check_file(p)
+                cap = newcap()
+                r.did_upload(cap)
+                twin_records[p] = cap
+                tsteps.append(("upload", p, cap))
+
+            twin_upload(a)
+            twin_check(a)
+            twin_check(b)                 # never uploaded: nothing to reuse
+            if trng.random() < .7:
+                twin_upload(b)
+                twin_check(a)             # a's most recent upload is still its own
+                twin_check(b)
+                if trng.random() < .5:
+                    twin_upload(a)
+                    twin_check(b)
+                    twin_check(a)
+            bdb.connection.close()
+            os.unlink(dbfile)
+            ck.case("case-twin-history", key=(where, a, st, len(tsteps)), nontrivial=True,
+                    sample={"where": where, "steps": [s[0] for s in tsteps]})
+
         for h in range(nhist):
             if ck.out_of_time():
                 break
@@ -388,7 +450,7 @@ def run(ck):
                      "refused-because-only-mtime-changed", "refused-because-only-ctime-changed",
                      "refused-because-timestamps-untrusted", "upload:late-stale-result", "reopen",
                      "stat-change:touch-back", "dir-mutation:one-cap", "dir-mutation:one-name", "dir-mutation:swap-caps", "dir-mutation:rotate-caps",
-                     "relative-spelling", "tilde-spelling", "cwd-changed", "home-changed")
+                     "relative-spelling", "tilde-spelling", "cwd-changed", "home-changed", "case-twin-paths-checked")
     ck.exhaustive = False
 
 
